@@ -125,7 +125,7 @@ class Paths:
         elif op == '%':
             f = '=%s%%' % texts[0]
         else:
-            f = '=%s%s%s' % (texts[0], op, texts[1])
+            f = _lit_text(op, entries)
         fn = self.P.ast(f)[1].compile()
         return f, fn(*args)
 
@@ -263,6 +263,8 @@ def _lit_text(op, entries):
         return '=+%s' % t[0]
     if op == '%':
         return '=%s%%' % t[0]
+    if t[1].startswith('(-') and (len(t[0]) + len(op)) % 2:
+        t[1] = t[1][1:-1]        # a signed right operand needs no parentheses
     return '=%s%s%s' % (t[0], op, t[1])
 
 
